@@ -56,10 +56,46 @@ CHECKS = {
             "Random option subsets are supplied through the three routes (CLI with path first/middle/last/swallowed "
             "by each list flag/implicit create and flag aliases); every option must land in its documented field "
             "and the three files must be identical apart from the creation date."),
+    "C08": ("exploration", "3.C08", "metamorphic monitor: raw info span across path spellings, locations, enumeration orders, option and clock variants",
+            "One tree is created 14-18 times in separate processes under variants that must not matter (spelling of "
+            "the path incl. dot segments and trailing separators, working directory, relocated copy, permuted "
+            "os.listdir/os.scandir results, tracker/seed lists, output location, progress mode, -q, shifted clock); the "
+            "raw info bytes must be identical and the whole file may differ only in the creation date."),
+    "C09": ("exploration", "3.C09", "history monitor: one long-lived interpreter vs a fresh interpreter per step on twin sandboxes",
+            "Random histories of creates, filesystem mutations under the content path, edits, rechecks, rebuilds and "
+            "magnets run step by step in one long-lived process and in a fresh interpreter per step on twin "
+            "sandboxes; every observable result is compared after every step."),
+    "C13": ("exploration", "3.C13", "reference-model monitor: rebuilt destination tree verified by the reference re-checker",
+            "Batches of v1/v2/hybrid torrents whose files are scattered by basename over several search directories "
+            "next to junk and same-name decoys (enumeration permuted) are rebuilt through Assembler and the CLI; every "
+            "listed file must exist with its length, the destination must verify at 100% and the count must not exceed "
+            "the files present."),
+    "C14": ("exploration", "3.C14", "invariant monitor: before/after snapshots + audit-event log around (repeated) rebuilds",
+            "As C13 with pre-populated destinations (correct / wrong / shorter / unrelated files) and 1-3 consecutive "
+            "rebuilds; snapshots and the audit log of every write-class event show that sources and metafiles are "
+            "untouched, full-length destination files keep their bytes and everything placed is a copy of a search "
+            "file at an assigned path and never a decoy."),
+    "C17": ("fault_enumeration", "3.C17", "fault enumeration: crash before every traced line / around every filesystem operation, I/O errors and short writes at every operation",
+            "For each (metafile, edit request, route) the un-faulted edit is traced (sys.monitoring LINE events in "
+            "torrentfile.edit/commands and pyben; wrappers on every write-class primitive, cross-checked against the "
+            "audit hook) and then re-run once per fault point in a forked process: process death before lines and "
+            "before/after operations and after k bytes of each write, EACCES/ENOSPC/EIO at each operation, short write, "
+            "error on close, un-encodable values.  The metafile path must hold exactly the old or the new bytes. "
+            "Enumeration is exhaustive over operations and over distinct lines (first/last occurrence) of the traced "
+            "run, sampled over repeated line events."),
+    "C18": ("exploration", "3.C18", "invariant monitor: sandbox snapshots + audit-event log around every CLI command",
+            "recheck/check, info, magnet/m (with -q/-v, intact and damaged content), create/new/implicit create (all "
+            "versions, options, out forms, pre-existing probe-path or output files) and rename (target free/existing) "
+            "run inside a sandbox whose full snapshot (names, sizes, SHA-256, modes) and write-event log are compared "
+            "with the effect the statement allows."),
+    "C19": ("exploration", "3.C19", "veto monitor: audit hook records and blocks every write-class event resolving outside the destination",
+            "Reference-encoded hostile metafiles ('..', '.', '', absolute, embedded separators, deep chains in name and "
+            "directory components; v1/v2/hybrid) with matching candidates are rebuilt under an audit hook that blocks "
+            "and records any write whose resolved target is outside the destination; no such event may occur and the "
+            "outside snapshot must be unchanged."),
 }
 
-PENDING = {k: "check not built yet (work in progress; will be claimed once the monitor exists)"
-           for k in ("C08", "C09", "C13", "C14", "C17", "C18", "C19")}
+PENDING = {}
 
 NOTE = ("Trusted base: the reference models under vf/ref (small, self-tested by setup_cmd; two BEP 52 formulations must "
         "agree), CPython's hashlib/os, and the harness. Inputs are bounded as stated in DESIGN.md section 5. "
